@@ -47,6 +47,8 @@ type inliner struct {
 
 	deferCands   map[*types.Func]*ast.FuncDecl // helpers with recover(): inlined only as the body of a deferred literal
 	deferInlined []*types.Func
+
+	spread map[types.Object][]ast.Expr // variadic parameter of the callee being inlined -> the explicit arguments of this call
 }
 
 // FuncInventory lists "pkgpath.Func" / "pkgpath.Type.Method" for all first-party declarations.
@@ -214,8 +216,41 @@ func (in *inliner) inlinableWith(fd *ast.FuncDecl, obj *types.Func, allowRecover
 		return false
 	}
 	sig := obj.Type().(*types.Signature)
-	if sig.RecvTypeParams().Len() > 0 || sig.Variadic() {
+	if sig.RecvTypeParams().Len() > 0 {
 		return false
+	}
+	// a variadic helper whose variadic parameter is only ever forwarded (`g(…, args...)`): at an inlined call
+	// the explicit arguments take its place
+	if sig.Variadic() {
+		if fd.Type.Params == nil || len(fd.Type.Params.List) == 0 {
+			return false
+		}
+		lastField := fd.Type.Params.List[len(fd.Type.Params.List)-1]
+		if len(lastField.Names) != 1 {
+			return false
+		}
+		vp := in.info.Defs[lastField.Names[0]]
+		forwardedOnly := vp != nil
+		var stack []ast.Node
+		ast.Inspect(fd.Body, func(n ast.Node) bool {
+			if n == nil {
+				stack = stack[:len(stack)-1]
+				return false
+			}
+			stack = append(stack, n)
+			id, isID := n.(*ast.Ident)
+			if !isID || in.info.Uses[id] != vp {
+				return true
+			}
+			call, isCall := stack[len(stack)-2].(*ast.CallExpr)
+			if !isCall || !call.Ellipsis.IsValid() || len(call.Args) == 0 || call.Args[len(call.Args)-1] != ast.Expr(id) {
+				forwardedOnly = false
+			}
+			return true
+		})
+		if !forwardedOnly {
+			return false
+		}
 	}
 	// a generic function whose body never names its type parameters (they only type the parameters: a
 	// loop over a []T calling a method of T's constraint) reads the same for every instantiation
@@ -439,6 +474,23 @@ func (in *inliner) cloneValue(v reflect.Value, subst map[types.Object]ast.Expr) 
 		if v.IsNil() || v.Type() == objType || v.Type() == scopeType {
 			return reflect.Zero(v.Type())
 		}
+		// `g(a, args...)` with args the variadic parameter of the helper being inlined: g(a, x1, x2)
+		if call, ok := v.Interface().(*ast.CallExpr); ok && call.Ellipsis.IsValid() && len(call.Args) > 0 && in.spread != nil {
+			if id, isID := call.Args[len(call.Args)-1].(*ast.Ident); isID {
+				if extras, isSpread := in.spread[in.info.Uses[id]]; isSpread {
+					nc := &ast.CallExpr{Lparen: call.Lparen, Rparen: call.Rparen}
+					nc.Fun = in.clone(call.Fun, subst).(ast.Expr)
+					for _, a := range call.Args[:len(call.Args)-1] {
+						nc.Args = append(nc.Args, in.clone(a, subst).(ast.Expr))
+					}
+					for _, e := range extras {
+						nc.Args = append(nc.Args, in.clone(e, nil).(ast.Expr))
+					}
+					in.copyInfo(call, nc)
+					return reflect.ValueOf(nc)
+				}
+			}
+		}
 		if id, ok := v.Interface().(*ast.Ident); ok && subst != nil {
 			if obj := in.info.Uses[id]; obj != nil {
 				if rep, ok := subst[obj]; ok {
@@ -585,6 +637,23 @@ func (in *inliner) bindParams(fd *ast.FuncDecl, call *ast.CallExpr, recv ast.Exp
 			names = append(names, nil)
 		}
 		names = append(names, f.Names...)
+	}
+	in.spread = nil
+	if sig, _ := in.info.Defs[fd.Name].Type().(*types.Signature); sig != nil && sig.Variadic() {
+		fixed := len(names) - 1
+		if call.Ellipsis.IsValid() || fixed < 0 || len(call.Args) < fixed || names[fixed] == nil {
+			return nil, nil, false
+		}
+		for _, extra := range call.Args[fixed:] {
+			if !in.simpleArg(extra) {
+				return nil, nil, false
+			}
+		}
+		for i := 0; i < fixed; i++ {
+			bind(names[i], call.Args[i])
+		}
+		in.spread = map[types.Object][]ast.Expr{in.info.Defs[names[fixed]]: call.Args[fixed:]}
+		return subst, prologue, true
 	}
 	if len(names) != len(call.Args) {
 		return nil, nil, false
